@@ -169,8 +169,9 @@ class ProgressIndicator(object):
         Overwrites a previous message to the output.
         """
         if self._io.supports_ansi():
-            self._io.write("\x0D\x1B[2K")
-            self._io.write(message)
+            # A single write per frame: the spinner thread and the caller may both
+            # redraw, and two half-frames must never interleave on the line.
+            self._io.write("\x0D\x1B[2K" + message)
         else:
             self._io.write_line(message)
 
